@@ -154,6 +154,9 @@ class Exec:
             s.fbyid[i + 1] = name
         s.ipd = {}
         s.ginit = {}
+        s.load_trace = None      # when a set: (region, offset, nbytes) of every concrete-address load (footprints, C12)
+        s.track_dead = False     # when set: stack slots of returned functions are remembered; touching one is a 'uaf' exit class
+        s.dead = set()
         s.access_log = []        # accesses to array-backed regions: (kind, region name, pc, offset term, nbytes)
         s.div_oracle = None      # optional: fn(ex, st, op, bits, A, B) -> term or None (sound rewrites only; see checks/c16.py)
         s.div_zero_check = False
@@ -227,6 +230,10 @@ class Exec:
         if p.sym:
             return s.load_sym(st, p, n)
         reg = st.mem[p.r]
+        if s.track_dead and p.r in s.dead:
+            s.exits.append((list(st.pc), 'uaf', 'load from dead stack slot %s+%s (%s)' % (reg.name, p.o, desc)))
+        if s.load_trace is not None and reg.arr is None:
+            s.load_trace.add((p.r, p.o, n))
         if reg.arr is not None:
             off = bv(p.o, 64)
             s.oblig.append((list(st.pc), z3.And(z3.ULE(off, reg.size - n), z3.ULE(off + n, reg.size)), 'load of %d byte(s) inside %s' % (n, reg.name)))
@@ -274,6 +281,8 @@ class Exec:
         if p.sym:
             return s.store_sym(st, p, n, v)
         reg = st.wregion(p.r)
+        if s.track_dead and p.r in s.dead:
+            s.exits.append((list(st.pc), 'uaf', 'store to dead stack slot %s+%s' % (reg.name, p.o)))
         if reg.arr is not None:
             off = bv(p.o, 64)
             s.oblig.append((list(st.pc), z3.And(z3.ULE(off, reg.size - n), z3.ULE(off + n, reg.size)), 'store of %d byte(s) inside %s' % (n, reg.name)))
@@ -846,6 +855,8 @@ class Exec:
         for (t, pn), a in zip(fn.params, args):
             fr.env[pn] = a
         s.run_until(fr, st, fn.order[0], None, None)
+        if s.track_dead:
+            s.dead.update(fr.allocas)
         if not fr.rets:
             return None
         base = min(len(x[0].pc) for x in fr.rets)
@@ -1081,6 +1092,7 @@ def step(s, fr, st, x):
         _, d, t, cnt = x
         c = s.val(st, fr, IntT(64), cnt)
         r = s.new_region(st, s.m.size(t) * c, 'alloca:%s:%s' % (fr.fn.name[-20:], d))
+        fr.allocas.append(r)
         env[d] = Ptr(r, 0)
     elif k == 'select':
         _, d, t, c, a, b = x
@@ -1229,6 +1241,13 @@ def intrinsic(s, st, name, A, args):
         dst, b, n = A[0], A[1], A[2]
         if not is_c(n):
             raise Abort('symbolic memset length')
+        if not dst.sym and dst.r in st.mem and st.mem[dst.r].arr is not None:
+            reg = st.wregion(dst.r)
+            if is_c(dst.o) and dst.o == 0 and n == reg.size and is_c(b):
+                reg.arr = z3.K(z3.BitVecSort(64), z3.BitVecVal(b, 8))      # whole-array fill
+                return None
+            if n > 64:
+                raise Abort('partial memset of an array-backed region')
         s.fill(st, dst, n, b)
         return None
     if name.startswith('@llvm.ctlz'):
